@@ -121,6 +121,14 @@ def run(tier, seed, replay=None):
         ck.add_report(rep)
         ck.cov["inconclusive_" + name] = rep["inconclusive"]
         shutil.rmtree(r.workdir, ignore_errors=True)
+        if rep["divergences"]:
+            # the verdict is settled: the remaining configurations would only cost time (a change that makes calls hang costs a
+            # watchdog period per behaviour)
+            ck.cov["configurations_skipped_after_divergences"] = [n for n in cfgs if n not in ck.cov.get("replayed", []) and n != name]
+            for n2, r2 in res.items():
+                shutil.rmtree(r2.workdir, ignore_errors=True)
+            break
+        ck.cov.setdefault("replayed", []).append(name)
     ck.cov["rule"] = ("one behaviour per terminal state of the bounded model (BFS, history variable hidden by VIEW); each is replayed "
                       "step by step on a real ProviderCache with gated sources, comparing List(), Get results, Refresh results and "
                       "source-call counts after every step; non-trivial = contains at least one publication")
